@@ -42,6 +42,7 @@ func H_C15() {
 		x = int(vByte("x", 0))
 	}
 	refreshAt := vRange("refreshat", 0, -1, vBound("maxrefresh"))
+	interval := vRange("interval", 0, 0, vBound("maxinterval")) // automatic refresh every n-th Next (0 = never)
 	var log [8]int
 	nlog := 0
 	finished := false
@@ -51,6 +52,9 @@ func H_C15() {
 	go func() {
 		vThread("R")
 		it := s.NewIterator(CompareInt, s.MakeBuf())
+		if interval > 0 {
+			it.SetRefreshInterval(interval)
+		}
 		if seek {
 			it.Seek(vIntItem(x))
 		} else {
